@@ -3,13 +3,42 @@
 JOBS = 8          # concurrent CBMC processes per check (memory bound: winners use 1-3 GB)
 MEM_GB = 20       # RLIMIT_AS per process
 
+# slice/array `==` is CBMC's builtin memcmp loop: give that one loop its own bound so that the global
+# unwinding bound of a harness can stay small (largest compared object: 64 bytes)
+CBMC_ARGS = ["--unwindset", "memcmp.0:70"]
+
+# Cuts applied by lib/cbmc_wrap.py to the goto binary Kani hands to CBMC (all harnesses; listed in evidence):
+WRAP_CFG = {
+    # freeing an error value has no observable effect; the drop glue of the crate's error types is mutually
+    # recursive through io::Error's Box<dyn Error> (every candidate impl is explored at every level)
+    "remove_body": [
+        r"^std::ptr::drop_glue::<(error::Error|cosmian_crypto_core::CryptoCoreError|std::io::Error|data_struct::error::Error)>$",
+        r"^<core::io::error::repr::Repr as std::ops::Drop>::drop$",
+        # zeroization of byte buffers (memory hygiene; no property observes it, no code reads a buffer after zeroizing it)
+        r"^<std::slice::IterMut<'_, u8> as zeroize::Zeroize>::zeroize$",
+    ],
+    # fixed-size byte loops of the real code get their own bound (32-byte secrets, 16-byte tags)
+    "unwindset": [
+        [r"core::primitives::xor_2::<", 33],
+        [r"core::primitives::xor_in_place::<", 33],
+    ],
+}
+WRAP_ASSUMPTIONS = [
+    "cut: bodies of the drop glue of error values (crate Error, CryptoCoreError, io::Error) removed from the goto program "
+    "(freeing an error is unobservable; their recursive drop glue through Box<dyn Error> is intractable)",
+    "per-loop unwinding bounds: memcmp 70, primitives::xor_2 / xor_in_place 33; all other loops use the harness bound; "
+    "unwinding assertions on",
+]
+
 GUARD = "cosmian_cover_crypt_verif"
 
 BUILDS = {
     # the crate exactly as users build it (default features)
-    "real": {"cargo_args": []},
+    "real": {"cargo_args": [], "kani_args": []},
     # the crate's own logic over model leaves (feature added by the guarded hook commit in /repo)
-    "model": {"cargo_args": ["--no-default-features", "--features", GUARD]},
+    # (Kani's per-assertion reachability covers are switched off there: every cover costs one more SAT call on
+    # a multi-million-clause instance; vacuity is guarded by the harnesses' own kani::cover! witnesses)
+    "model": {"cargo_args": ["--no-default-features", "--features", GUARD], "kani_args": ["--no-assertion-reach-checks"]},
 }
 
 # Where harness modules are injected: `parent` gets `#[cfg(kani)] mod verif_k;` appended, the harness file is
@@ -17,6 +46,8 @@ BUILDS = {
 SITES = {
     "revision_vec": dict(file="revision_vec.rs", parent="src/data_struct/revision_vec.rs",
                          modpath="data_struct::revision_vec::verif_k"),
+    "primitives_model": dict(file="primitives_model.rs", include=["common.rs"], parent="src/core/primitives.rs",
+                             modpath="core::primitives::verif_k"),
 }
 
 COMMON_ASSUMPTIONS = [
@@ -44,7 +75,12 @@ H("riter_zero_chains_terminates", "revision_vec", ["C14", "C04"], "quick",
   desc="revisions() on a key with zero chains ends immediately (no endless Some([]))",
   bounds="empty RevisionVec<u8,u8>", unwind=3, timeout=300, covers=["reached"])
 
+TRAP_LOOPS = [[r"toy_group::ToyPoint|toy_group::ToyScalar", 3]]  # loops over traps / markers: tracing level 1 = 2 elements
+H("g1_kem_classic_1x1", "primitives_model", ["G1"], "quick", build="model", unwind=2, timeout=900, loops=TRAP_LOOPS,
+  desc="probe", bounds="probe", covers=["decaps returned Some"])
+
 CHECKS = {
+    "G1": dict(),
     "C04": dict(
         bounds_note="R-iter: RevisionVec<u8,u8> instantiation, <=3 chains x <=3 elements, shape concrete per harness",
         outside="chains longer than 3, more than 3 chains, the RightSecretKey instantiation of the iterator",
@@ -81,7 +117,7 @@ def select(prop, tier, seed=0):
 
 def assumptions_for(h):
     s = HARNESSES[h]
-    out = list(COMMON_ASSUMPTIONS)
+    out = list(COMMON_ASSUMPTIONS) + WRAP_ASSUMPTIONS
     out += s.get("assumptions", [])
     if s.get("build", "real") == "model":
         out += MODEL_ASSUMPTIONS
